@@ -725,6 +725,18 @@ def targeted_sets(seed):
                'alpha': M([('t', M([('k', S('0')), ('__patch', M([('__include', S('base:/p')), ('a', S('1'))]))]))])}))
     out.append(('directive-in-patch-literal:list', {'base': base2,
                'alpha': M([('t', M([('k', S('0')), ('__patch', L([M([('__include', S('base:/p'))]), M([('b', S('2'))])]))]))])}))
+    # 10. a key that denotes another element after its own insertion (`@before last`), in the middle of a path whose
+    #     target is converted to a list and then assigned (two writes through one copy-on-write reference)
+    base3 = M([('l', L([M([('x', S('k'))]), M([('x', S(''))])]))])
+    out.append(('index-shift:append-to-empty', {'base': base3,
+               'alpha': M([('t', M([('__include', S('base:/')), ('__patch', M([('l/@before last/x/+', L([w()]))]))])),
+                           ('u', M([('__include', S('base:/l'))]))])}))
+    out.append(('index-shift:via-custom', {'base': base3,
+               'alpha': M([('t', M([('__include', S('base:/'))])), ('u', M([('__include', S('base:/l/@1'))]))]),
+               'alpha.custom': M([('patch', M([('t/l/@before last/x/+', L([w(), w()]))]))])}))
+    out.append(('index-shift:append-empty-list', {'base': base3,
+               'alpha': M([('t', M([('__include', S('base:/')), ('__patch', M([('l/@before last/x/+', L([]))]))])),
+                           ('u', M([('__include', S('base:/l'))]))])}))
     return out
 
 
